@@ -478,6 +478,104 @@ def token_map(btoks, btext, ctoks, ctext):
     return M
 
 
+IDENT_RE = re.compile(r'^[A-Za-z_][A-Za-z0-9_]*$')
+KEYWORDS = set('as break const continue crate else enum extern false fn for if impl in let loop match mod move mut pub ref return self Self static struct super trait true type unsafe use where while dyn'.split())
+
+
+def fn_ranges(toks):
+    """[(first token index, last token index)] of every `fn` item with a body, innermost last"""
+    out = []
+    for i, (_, _, t) in enumerate(toks):
+        if t != 'fn':
+            continue
+        j = i + 1
+        depth = 0
+        while j < len(toks):
+            x = toks[j][2]
+            if x in '([':
+                depth += 1
+            elif x in ')]':
+                depth -= 1
+            elif x == ';' and depth == 0:
+                j = None
+                break
+            elif x == '{' and depth == 0:
+                break
+            j += 1
+        if j is None or j >= len(toks):
+            continue
+        d = 0
+        k = j
+        while k < len(toks):
+            if toks[k][2] == '{':
+                d += 1
+            elif toks[k][2] == '}':
+                d -= 1
+                if d == 0:
+                    break
+            k += 1
+        out.append((i, min(k, len(toks) - 1)))
+    return out
+
+
+def local_renames(btoks, ctoks, M):
+    """Consistent 1:1 renamings of local identifiers inside one function: {(b fn range): {old: new}}.
+    A candidate is a single unmatched identifier token whose two neighbours are matched to the two neighbours of a single
+    unmatched identifier token of the current text.  It counts when, inside that function, every such pair agrees, the old
+    name no longer occurs in the current function and the new name did not occur in the old one (no capture)."""
+    res = {}
+    ranges = fn_ranges(btoks)
+    if not ranges:
+        return res
+    cand = {}
+    for k in range(1, len(btoks) - 1):
+        if M[k] is not None or M[k - 1] is None or M[k + 1] is None:
+            continue
+        if M[k + 1] - M[k - 1] != 2:
+            continue
+        o, n = btoks[k][2], ctoks[M[k - 1] + 1][2]
+        if not (IDENT_RE.match(o) and IDENT_RE.match(n)) or o in KEYWORDS or n in KEYWORDS or o == n:
+            continue
+        if btoks[k - 1][2] in ('.', '::') or btoks[k + 1][2] == '::':
+            continue
+        encl = [r for r in ranges if r[0] <= k <= r[1]]
+        if not encl:
+            continue
+        r = max(encl, key=lambda r: r[1] - r[0])    # the outermost fn item (closures and nested fns share its locals' names)
+        cand.setdefault(r, []).append((k, o, n))
+    for r, lst in cand.items():
+        mp = {}
+        bad = set()
+        for k, o, n in lst:
+            if mp.setdefault(o, n) != n:
+                bad.add(o)
+        c_lo = next((M[x] for x in range(r[0], r[1] + 1) if M[x] is not None), None)
+        c_hi = next((M[x] for x in range(r[1], r[0] - 1, -1) if M[x] is not None), None)
+        if c_lo is None or c_hi is None:
+            continue
+        cwords = set(t[2] for t in ctoks[c_lo:c_hi + 1])
+        bwords = set(t[2] for t in btoks[r[0]:r[1] + 1])
+        ok = {}
+        for o, n in mp.items():
+            if o in bad or o in cwords or n in bwords:
+                continue
+            if len(set(mp.values())) != len(mp):
+                continue
+            ok[o] = n
+        if ok:
+            res[r] = ok
+            for k, o, n in lst:
+                if o in ok:
+                    M[k] = M[k - 1] + 1
+    return res
+
+
+def apply_renames(text, mp):
+    for o, n in mp.items():
+        text = re.sub(r'(?<![A-Za-z0-9_.])(?<!::)' + re.escape(o) + r'(?![A-Za-z0-9_])(?!\s*::)', n, text)
+    return text
+
+
 def lost_functions(b_text, btoks, lost):
     """names of the functions (in the sidecar's base text) that contained a lost insertion"""
     names = []
@@ -498,6 +596,8 @@ def merge(a_text, c_text, modname):
         M = list(range(len(btoks)))
     else:
         M = token_map(btoks, b_text, ctoks, c_text)
+    renames = {} if same else local_renames(btoks, ctoks, M)
+    ren_by_char = [((btoks[r[0]][0], btoks[r[1]][1]), mp) for r, mp in renames.items()]
     ends = [e for _, e, _ in btoks]
     import bisect
     placed = {}   # c token index (insert before) -> [(offset within the trivia, text)]
@@ -509,6 +609,9 @@ def merge(a_text, c_text, modname):
         hi = toks[j][0] if j < len(toks) else len(text)
         return text[lo:hi]
     for off, text in ins:
+        for (lo_, hi_), mp_ in ren_by_char:
+            if lo_ <= off <= hi_:
+                text = apply_renames(text, mp_)
         k = bisect.bisect_right(ends, off)       # number of B tokens that end at or before off
         rel = off - (ends[k - 1] if k > 0 else 0)
         j = None
@@ -550,6 +653,7 @@ def merge(a_text, c_text, modname):
                 out.append(GOPEN + t + GCLOSE)
     out.append(c_text[pos:])
     return ''.join(out), {'insertions': len(ins), 'displaced': displaced, 'base_matches_current': same, 'lost': lost,
+                          'renamed_locals': sorted('%s->%s' % (o, n) for mp in renames.values() for o, n in mp.items()),
                           'lost_in': lost_functions(b_text, btoks, lost)}
 
 
@@ -639,12 +743,12 @@ NECESSITY = [
 ]
 
 
-def necessity_copies(m, text):
+def necessity_copies(m, text, skip=()):
     """append the must-fail copies for module m (text = generated module text incl. inserted regions)"""
     out = text
     made = []
     for mod, ty, fn, drop, nid in NECESSITY:
-        if mod != m:
+        if mod != m or fn in skip:
             continue
         # all inherent impl blocks of ty
         found = None
@@ -686,6 +790,60 @@ def necessity_copies(m, text):
         made.append('%s::%s::%s__nec_%s' % (mod, ty, fn, nid))
     return out, made
 
+def fn_occurrences(g, name):
+    """offsets of `fn name` OUTSIDE inserted regions (i.e. real functions of the module), in order"""
+    occ = []
+    i = 0
+    pat = re.compile(r'\bfn\s+%s\b' % re.escape(name))
+    while i < len(g):
+        if g.startswith(GOPEN, i):
+            i = g.index(GCLOSE, i) + len(GCLOSE)
+            continue
+        m = pat.match(g, i)
+        if m and (i == 0 or not (g[i - 1].isalnum() or g[i - 1] == '_')):
+            occ.append(i)
+            i = m.end()
+            continue
+        i += 1
+    return occ
+
+
+def degrade_fn(g, name, ordinal):
+    """Give up on the BODY of one real function for this run: its body ghost text is dropped and the function is marked
+    external_body, so that Verus neither type-checks nor verifies the body; its contract (signature insertions) stays and
+    is ASSUMED for this run.  Used when the current body cannot be processed (ghost text naming a local that no longer
+    exists, a std function without specification, ...).  -> new text, or None if the function is not found."""
+    occ = fn_occurrences(g, name)
+    if ordinal >= len(occ):
+        return None
+    start = occ[ordinal]
+    i = start
+    depth = 0
+    body = None
+    while i < len(g):
+        if g.startswith(GOPEN, i):
+            i = g.index(GCLOSE, i) + len(GCLOSE)
+            continue
+        ch = g[i]
+        if ch in '([':
+            depth += 1
+        elif ch in ')]':
+            depth -= 1
+        elif ch == ';' and depth == 0:
+            return None
+        elif ch == '{' and depth == 0:
+            body = i
+            break
+        i += 1
+    if body is None:
+        return None
+    end = match_brace(g, body)
+    inner = re.sub(re.escape(GOPEN) + r'.*?' + re.escape(GCLOSE), '', g[body:end + 1], flags=re.S)
+    # the attribute goes in front of the item (before `pub`, other attributes stay where they are)
+    ls = g.rfind('\n', 0, start) + 1
+    return g[:ls] + GOPEN + '#[verifier::external_body] /*degraded*/ ' + GCLOSE + g[ls:body] + inner + g[end + 1:]
+
+
 HEADER = '''#![allow(unused_imports, dead_code, unused_macros, unreachable_patterns, unused_variables, unused_mut, non_camel_case_types, unused_parens, unused_braces, unused_attributes)]
 #![cfg_attr(verus_keep_ghost, verifier::allow(autoderive_clone_without_spec))]
 extern crate alloc;
@@ -698,8 +856,8 @@ def sha(s):
     return hashlib.sha256(s.encode()).hexdigest()
 
 
-def generate(repo=REPO, contracts_dir=None, with_contracts=True):
-    """-> (generated text, info dict)"""
+def generate(repo=REPO, contracts_dir=None, with_contracts=True, degrade=()):
+    """-> (generated text, info dict).  degrade: [(module, fn name, ordinal)] functions whose body is given up (degrade_fn)"""
     contracts_dir = contracts_dir or os.path.join(VERIF, 'contracts')
     info = {'inputs': {}, 'rewrites': {}, 'merge': {}, 'registries': {}}
     util_src = open(os.path.join(repo, 'src/util/mod.rs')).read()
@@ -726,8 +884,14 @@ def generate(repo=REPO, contracts_dir=None, with_contracts=True):
         else:
             g = c
         g = add_auto(g, registries)
+        for dm, dn, do in sorted(degrade, key=lambda x: (x[0], x[1], -x[2])):
+            if dm == m:
+                g2 = degrade_fn(g, dn, do)
+                if g2 is not None:
+                    g = g2
+                    info.setdefault('degraded', []).append('%s::%s#%d' % (dm, dn, do))
         if with_contracts:
-            g, made = necessity_copies(m, g)
+            g, made = necessity_copies(m, g, skip=set(dn for dm, dn, do in degrade if dm == m))
             info.setdefault('necessity', []).extend(made)
         if strip_generated(g) != strip_generated(c):
             raise ExtractError('self-check failed: stripping the insertions from module %s does not give back the rewritten source' % m)
